@@ -323,3 +323,30 @@ add(Contract(
     ghost_init={'g_elem_compiled': 'False'}, ghost_kinds={'g_elem_compiled': 'bool'},
     modifies=['self.seq_elem_field_name', 'self.when', 'self.aligned_to', 'self.get_how_many_elements', 'self.until_condition',
               'self.prototype_field.*'], allocates=True, returns='list'))
+
+# ---------------------------------------------------------------- constructors of the containers (C19, C08)
+add(Contract(
+    'structural_fields:Sequence.__init__',
+    params={'self': 'ref:Sequence', 'prototype': 'dyn', 'count': 'dyn', 'until': 'dyn', 'when': 'dyn', 'default': 'dyn', 'aligned': 'dyn'},
+    defaults={'count': 'None', 'until': 'None', 'when': 'None', 'default': 'None', 'aligned': 'None'},
+    ensures=[
+        "isinst(prototype, 'Field') and same(self.prototype_field, prototype)",
+        # exactly one of count / until
+        "isnone(count) != isnone(until)",
+        # the declared default, or a NEW empty list per declaration (never a list shared between declarations)
+        "implies(not isnone(default), same(self.default, default))",
+        "implies(isnone(default), islist(self.default) and len(aslist(self.default)) == 0 and fresh_since(self.default))",
+        "same(self.aligned_to, aligned)", "hasattr_tmp(self) and same(self.tmp, (count, until, when))",
+    ],
+    raises={'AssertionError': ["not isinst(prototype, 'Field')"],
+            'ValueError': ["isnone(count) == isnone(until)"]},
+    modifies=['self.*'], allocates=True))
+
+add(Contract(
+    'structural_fields:Optional.__init__',
+    params={'self': 'ref:Optional', 'prototype': 'dyn', 'when': 'dyn', 'default': 'dyn'},
+    defaults={'default': 'None'},
+    ensures=["isinst(prototype, 'Field') and same(self.prototype_field, prototype)",
+             "same(self.default, default)", "hasattr_tmp(self) and same(self.tmp, when)"],
+    raises={'AssertionError': ["not isinst(prototype, 'Field')"]},
+    modifies=['self.*'], allocates=True))
